@@ -376,7 +376,12 @@ func (p *probeState) onExit(id int, ok bool, dump string) {
 			p.report("pre-snapshot-effect:"+frameDesc(ni.a), fmt.Sprintf("frame %d (%s) changed more than one nonce before taking its snapshot: %s -> %s", id, frameDesc(ni.a), pf.atPre, pf.entry))
 		}
 	}
-	if !ok && pf.hasEntry && now != pf.entry {
+	if !ok && pf.hasEntry && now != pf.entry && !p.h.flags.p002 && len(diffNames(pf.entry, now, "A")) == 0 &&
+		len(diffNames(pf.entry, now, "L")) == 0 && len(diffNames(pf.entry, now, "M")) == 0 {
+		// historical heights: before Proposal002 AddFT/SubFT write balances without a journal entry
+		p.report("pre002:balances-not-journaled", fmt.Sprintf("frame %d (%s, ending %s) failed, balances were not restored (height %d, before Proposal002): at entry %s at exit %s",
+			id, frameDesc(ni.a), ni.a.body.end, blockHeight, pf.entry, now))
+	} else if !ok && pf.hasEntry && now != pf.entry {
 		p.report("failed-frame:"+frameDesc(ni.a)+":"+failClass(ni.a.body.end, pf.entry, now),
 			fmt.Sprintf("frame %d (%s, ending %s) failed but left a trace: at entry %s at exit %s", id, frameDesc(ni.a), ni.a.body.end, pf.entry, now))
 	}
@@ -456,7 +461,10 @@ func (p *probeState) rootExit(tx *txn, ok bool, dump string) {
 	if pf.hasEntry && ((!tx.create && pf.entry != pf.atPre) || (tx.create && !onlyNonceBump(pf.atPre, pf.entry))) {
 		p.report("pre-snapshot-effect:"+kind, fmt.Sprintf("outermost frame (%s) changed the state before taking its snapshot: %s -> %s", kind, pf.atPre, pf.entry))
 	}
-	if now := protectedPart(dump); !ok && pf.hasEntry && now != pf.entry {
+	if now := protectedPart(dump); !ok && pf.hasEntry && now != pf.entry && !p.h.flags.p002 && len(diffNames(pf.entry, now, "A")) == 0 &&
+		len(diffNames(pf.entry, now, "L")) == 0 {
+		p.report("pre002:balances-not-journaled", fmt.Sprintf("outermost frame (%s) failed, balances were not restored (height %d, before Proposal002): at entry %s at exit %s", kind, blockHeight, pf.entry, now))
+	} else if !ok && pf.hasEntry && now != pf.entry {
 		p.report("failed-frame:"+kind+":"+failClass(tx.body.end, pf.entry, now),
 			fmt.Sprintf("outermost frame (%s, ending %s) failed but left a trace: at entry %s at exit %s", kind, tx.body.end, pf.entry, now))
 	}
@@ -730,18 +738,42 @@ func runSearch(a map[string]string) {
 	byKey := map[string]violation{}
 	classes := map[string]int{}
 	runBlock := func(blk *block, class string) {
-		p.prefix = []string{blk.resetLine()}
+		p.prefix = nil
+		if fl := blk.forkLine(); fl != "" {
+			p.prefix = append(p.prefix, fl)
+		}
+		p.prefix = append(p.prefix, blk.resetLine())
 		h.reset(blk)
+		type kept struct {
+			line, receipt string
+			res           txResult
+		}
+		var retained []kept
 		for _, tx := range blk.txs {
 			tx.blk = blk
 			line := tx.line()
-			res := hx.Guard(func() string { h.runTx(tx); return "" })
+			var r txResult
+			res := hx.Guard(func() string { r = h.runTx(tx); return "" })
 			if strings.HasPrefix(res, "PANIC") {
-				p.viols = append(p.viols, violation{Key: "panic", Desc: res, Replay: map[string]interface{}{"prefix": p.prefix, "ops": []string{line}}})
+				v := violation{Key: "panic", Desc: res, Replay: map[string]interface{}{"prefix": p.prefix, "ops": []string{line}}}
+				p.viols = append(p.viols, v)
+				emitViolation(v)
+			} else {
+				retained = append(retained, kept{line, h.logsStr(r.receipt), r})
 			}
 			p.prefix = append(p.prefix, line)
 			probes++
 			distinct[line] = true
+		}
+		// retention: the log objects handed out in earlier receipts must not have been touched by later
+		// transactions (receipt.Logs aliases the state object's per-hash slice)
+		for _, k := range retained {
+			if now := h.logsStr(k.res.receipt); now != k.receipt {
+				v := violation{Key: "retention:receipt-logs-changed-later", Desc: fmt.Sprintf("receipt logs of `%s` read %s when the transaction ended and %s at the end of the block", k.line, k.receipt, now),
+					Replay: map[string]interface{}{"prefix": p.prefix[:len(p.prefix)-len(blk.txs)], "ops": p.prefix[len(p.prefix)-len(blk.txs):]}}
+				p.viols = append(p.viols, v)
+				emitViolation(v)
+			}
 		}
 		classes[class]++
 		for _, v := range p.viols {
@@ -779,6 +811,7 @@ func runSearch(a map[string]string) {
 		return &act{kind: 'C', id: g.id(), ck: kind, addr: "b22", value: value, body: body}
 	}
 	done := false
+	vi := 0
 	for _, cfg := range cfgs[:2] {
 		for _, k := range kinds {
 			for _, end := range k.ends {
@@ -791,6 +824,11 @@ func runSearch(a map[string]string) {
 						value := 0
 						if k.kind == "call" || k.kind == "create" || k.kind == "create2" || k.kind == "authcall" {
 							value = r.Pick(0, 1)
+							if depth == 1 && k.kind != "authcall" {
+								// the caller is b20 (balance 1000): exactly the balance, one more (refused before the snapshot)
+								value = []int{0, 1, 1000, 1001}[vi%4]
+								vi++
+							}
 						}
 						if (k.kind == "create" || k.kind == "create2") && strings.HasPrefix(op, "authcall") {
 							continue
@@ -973,6 +1011,20 @@ func runSearch(a map[string]string) {
 			runBlock(blk, "stake-static")
 		}
 	}
+	// 2d. boundary: the call depth limit; 2e. history / concurrency; 2f. state-root metamorphic probe
+	setSchedule(cfgs[0])
+	for _, extra := range []func() (string, string){depthProbe, func() (string, string) { return historyProbe(r.Fork(), st) }, func() (string, string) { return rootProbe(r.Fork(), st, 40) }} {
+		var key, desc string
+		if pn := hx.Guard(func() string { key, desc = extra(); return "" }); pn != "" {
+			key, desc = "panic", pn
+		}
+		probes++
+		if key != "" {
+			v := violation{Key: key, Desc: desc, Replay: map[string]interface{}{"cmd": "harness/bin/c12 mode=search (deterministic phase)", "detail": desc}}
+			byKey[key] = v
+			emitViolation(v)
+		}
+	}
 	// 2b. STAKE inside a STATICCALL (needs a registered miner account; outside the line protocol)
 	probes++
 	if d := hx.Guard(func() string { return stakeProbe(false) }); d != "" {
@@ -986,7 +1038,16 @@ func runSearch(a map[string]string) {
 	// budget (the deterministic phases above always run to the end) but at least 200 blocks
 	for nr := 0; !done && (nr < 200 || time.Now().Before(deadline)); nr++ {
 		g := newGen(r.Fork(), st)
-		runBlock(g.block(), "random")
+		g.pre002 = true
+		b := g.block()
+		cl := "random"
+		if b.cfg.sched != "" {
+			cl = "random:" + b.cfg.sched
+			if !g.flags.p002 {
+				cl += ":pre002"
+			}
+		}
+		runBlock(b, cl)
 	}
 	keys := make([]string, 0, len(byKey))
 	for k := range byKey {
